@@ -20,6 +20,7 @@ type CEnv struct {
 	entryVars map[string]SV // values of the parameters at function entry (for old())
 	prev      *CEnv         // the environment at the head of the current loop iteration (step clauses)
 	outer     *CEnv         // the environment at the head of the current iteration of the enclosing loop (inner-loop invariants)
+	locals    map[string]SV // every named local cell of the current frame (for the rename fallback)
 	st        *State        // when set: type invariants of values read from the heap are added to it as assumptions
 }
 
@@ -45,6 +46,41 @@ func (env *CEnv) inv(v SV) SV {
 		}
 	}
 	return v
+}
+
+// renamed: a contract names a local variable that no longer exists.  If exactly one local variable of the function
+// is not mentioned anywhere in its contract, the name is taken to denote it (a renamed local must not become an
+// alarm); the binding is reported as a warning in the evidence.
+func (env *CEnv) renamed(name string) (SV, bool) {
+	x := env.x
+	if x == nil || x.fc == nil || env.locals == nil {
+		return SV{}, false
+	}
+	if m, ok := x.renameMap[name]; ok {
+		if v, ok2 := env.locals[m]; ok2 {
+			return v, true
+		}
+		return SV{}, false
+	}
+	ids := x.contractIdents()
+	var cands []string
+	for n := range env.locals {
+		if !ids[n] {
+			cands = append(cands, n)
+		}
+	}
+	sort.Strings(cands)
+	if len(cands) != 1 {
+		if len(cands) > 1 && len(cands) <= 4 {
+			if x.renameCands == nil {
+				x.renameCands = map[string][]string{}
+			}
+			x.renameCands[name] = cands
+		}
+		return SV{}, false
+	}
+	x.warnings = append(x.warnings, fmt.Sprintf("contract identifier %q bound to the only unmentioned local %q (renamed?)", name, cands[0]))
+	return env.locals[cands[0]], true
 }
 
 func (env *CEnv) child() *CEnv {
@@ -178,6 +214,9 @@ func (env *CEnv) eval(e *CExpr) SV {
 		}
 		if c, ok := env.x.prog.constants[e.Str]; ok {
 			return intSV(IntC(c), types.Typ[types.Int])
+		}
+		if v, ok := env.renamed(e.Str); ok {
+			return v
 		}
 		env.errf("unknown identifier %q", e.Str)
 	case "field":
